@@ -57,14 +57,18 @@ func allocTarget(vi int) *allocAPI {
 		o := &gocvss20.CVSS20{}
 		return &allocAPI{
 			parse: func(s string) bool { c, err := gocvss20.ParseVector(s); sink20 = c; return err == nil },
-			obj:   o, scores: map[string]func() float64{"BaseScore": o.BaseScore, "TemporalScore": o.TemporalScore, "EnvironmentalScore": o.EnvironmentalScore, "Impact": o.Impact, "Exploitability": o.Exploitability},
+			obj:   o, scores: map[string]func() float64{ // closures, not method values: a method value of a value receiver would bind a copy of *o now
+				"BaseScore": func() float64 { return o.BaseScore() }, "TemporalScore": func() float64 { return o.TemporalScore() },
+				"EnvironmentalScore": func() float64 { return o.EnvironmentalScore() }, "Impact": func() float64 { return o.Impact() }, "Exploitability": func() float64 { return o.Exploitability() }},
 			reparse: func(s string) { c, _ := gocvss20.ParseVector(s); *o = *c },
 		}
 	case 1:
 		o := &gocvss30.CVSS30{}
 		return &allocAPI{
 			parse: func(s string) bool { c, err := gocvss30.ParseVector(s); sink30 = c; return err == nil },
-			obj:   o, scores: map[string]func() float64{"BaseScore": o.BaseScore, "TemporalScore": o.TemporalScore, "EnvironmentalScore": o.EnvironmentalScore, "Impact": o.Impact, "Exploitability": o.Exploitability},
+			obj:   o, scores: map[string]func() float64{ // closures, not method values: a method value of a value receiver would bind a copy of *o now
+				"BaseScore": func() float64 { return o.BaseScore() }, "TemporalScore": func() float64 { return o.TemporalScore() },
+				"EnvironmentalScore": func() float64 { return o.EnvironmentalScore() }, "Impact": func() float64 { return o.Impact() }, "Exploitability": func() float64 { return o.Exploitability() }},
 			rating:  gocvss30.Rating,
 			reparse: func(s string) { c, _ := gocvss30.ParseVector(s); *o = *c },
 		}
@@ -72,7 +76,9 @@ func allocTarget(vi int) *allocAPI {
 		o := &gocvss31.CVSS31{}
 		return &allocAPI{
 			parse: func(s string) bool { c, err := gocvss31.ParseVector(s); sink31 = c; return err == nil },
-			obj:   o, scores: map[string]func() float64{"BaseScore": o.BaseScore, "TemporalScore": o.TemporalScore, "EnvironmentalScore": o.EnvironmentalScore, "Impact": o.Impact, "Exploitability": o.Exploitability},
+			obj:   o, scores: map[string]func() float64{ // closures, not method values: a method value of a value receiver would bind a copy of *o now
+				"BaseScore": func() float64 { return o.BaseScore() }, "TemporalScore": func() float64 { return o.TemporalScore() },
+				"EnvironmentalScore": func() float64 { return o.EnvironmentalScore() }, "Impact": func() float64 { return o.Impact() }, "Exploitability": func() float64 { return o.Exploitability() }},
 			rating:  gocvss31.Rating,
 			reparse: func(s string) { c, _ := gocvss31.ParseVector(s); *o = *c },
 		}
@@ -80,9 +86,9 @@ func allocTarget(vi int) *allocAPI {
 	o := &gocvss40.CVSS40{}
 	return &allocAPI{
 		parse: func(s string) bool { c, err := gocvss40.ParseVector(s); sink40 = c; return err == nil },
-		obj:   o, scores: map[string]func() float64{"Score": o.Score},
+		obj:   o, scores: map[string]func() float64{"Score": func() float64 { return o.Score() }},
 		rating:  gocvss40.Rating,
-		nomen:   o.Nomenclature,
+		nomen:   func() string { return o.Nomenclature() },
 		reparse: func(s string) { c, _ := gocvss40.ParseVector(s); *o = *c },
 	}
 }
